@@ -105,7 +105,8 @@ CO_SDO *COSdoCheck(CO_SDO *srv, CO_IF_FRM *frm)
                 srv[n].Frm   = frm;
                 srv[n].Abort = 0;
                 cmd = CO_GET_BYTE(frm, 0);
-                if ((srv[n].Obj != 0) && (srv[n].Blk.State == BLK_IDLE) &&
+                if ((srv[n].Obj != 0) &&
+                    ((srv[n].Blk.State == BLK_IDLE) || (srv[n].Blk.State == BLK_UPINIT)) &&
                     (((cmd & 0xF0) == 0x20) || (cmd == 0x40) ||
                      ((cmd & 0xF9) == 0xC0) || ((cmd & 0xE3) == 0xA0))) {
                     /* a new initiate request replaces a pending transfer */
@@ -197,8 +198,9 @@ CO_ERR COSdoResponse(CO_SDO *srv)
     } else if ((cmd & 0xE3) == 0xA0) {
         result = COSdoInitUploadBlock(srv);
     } else if (cmd == 0xA3) {
-        if (srv->Obj == 0) {
+        if ((srv->Obj == 0) || (srv->Blk.State != BLK_UPINIT)) {
             COSdoAbort(srv, CO_SDO_ERR_CMD);
+            COSdoAbortReq(srv);
         } else {
             result = COSdoUploadBlock(srv);
         }
@@ -221,6 +223,7 @@ CO_ERR COSdoGetObject(CO_SDO *srv, uint16_t mode)
     CO_OBJ  *obj;
     uint32_t key;
 
+    srv->Blk.State = BLK_IDLE;
     key = CO_DEV(srv->Idx, srv->Sub);
     obj = CODictFind(&srv->Node->Dict, key);
     if (obj != 0) {
@@ -806,6 +809,7 @@ CO_ERR COSdoInitUploadBlock(CO_SDO *srv)
     }
     CO_SET_BYTE(srv->Frm, cmd, 0);
     CO_SET_LONG(srv->Frm, size, 4);
+    srv->Blk.State = BLK_UPINIT;
     return (result);
 }
 
